@@ -3,6 +3,7 @@ package rules
 import (
 	"go/constant"
 	"go/token"
+	"go/types"
 	"strings"
 
 	"golang.org/x/tools/go/ssa"
@@ -19,6 +20,7 @@ func init() {
 	register(&core.Rule{ID: "R-WARC-WAIT", Props: []string{"C02", "C04"}, Doc: "fetch closure: on the synchronous path every path from client.Do(req) to SetStatus(ItemArchived) receives from the channel created in that iteration and placed in req's context under key \"feedback\"; the key equals the one the linked warc module looks up; the wait is conditional on nothing but WARCWriteAsync", Run: ruleWarcWait})
 	register(&core.Rule{ID: "R-ARCHIVED-ONLY-HERE", Props: []string{"C02"}, Doc: "SetStatus(ItemArchived) has exactly one call site in the program, in the fetch closure that R-WARC-WAIT covers", Run: ruleArchivedOnlyHere})
 	register(&core.Rule{ID: "R-BODY-DRAIN", Props: []string{"C02", "C16"}, Doc: "ProcessBody: every `return nil` is preceded on all paths by the full-drain helper applied to Response.Body; that helper returns nil only from its err==io.EOF branch", Run: ruleBodyDrain})
+	register(&core.Rule{ID: "R-DISCARD-HOOK-INPUT", Props: []string{"C02"}, Doc: "the WARC writer calls the discard hook on a response re-parsed from the recorded bytes (http.ReadResponse(r, nil), read from the linked warc module): the default hooks may therefore depend only on what the wire carries (status, protocol, headers, body, lengths) — never on resp.Request or resp.TLS, which are nil there", Run: ruleDiscardHookInput})
 	register(&core.Rule{ID: "R-DISCARD-CHAIN", Props: []string{"C02"}, Doc: "startWARCWriter stores Builder.Build() of a builder with AddDefaultHooks into HTTPClientSettings.DiscardHook for both clients; AddDefaultHooks adds the Cloudflare and warc-discard-status hooks; the built chain returns true as soon as any hook does; the status hook tests resp.StatusCode against config.WARCDiscardStatus", Run: ruleDiscardChain})
 }
 
@@ -698,4 +700,110 @@ func copiedFrom(dst, src *ssa.Alloc) bool {
 		}
 	}
 	return false
+}
+
+// writerHookArgIsReparsed: in the linked warc module every call of the client's DiscardHook passes a response
+// obtained from http.ReadResponse(…, nil).
+func writerHookArgIsReparsed(p *core.Program) (bool, int) {
+	n, ok := 0, true
+	for _, pk := range p.SSA.AllPackages() {
+		if pk.Pkg.Path() != "github.com/CorentinB/warc" {
+			continue
+		}
+		var fns []*ssa.Function
+		for _, m := range pk.Members {
+			if f, isF := m.(*ssa.Function); isF {
+				fns = append(fns, withAnon(f)...)
+			}
+			if t, isT := m.(*ssa.Type); isT {
+				for _, typ := range []types.Type{t.Type(), types.NewPointer(t.Type())} {
+					ms := p.SSA.MethodSets.MethodSet(typ)
+					for i := 0; i < ms.Len(); i++ {
+						if f := p.SSA.MethodValue(ms.At(i)); f != nil {
+							fns = append(fns, withAnon(f)...)
+						}
+					}
+				}
+			}
+		}
+		for _, f := range fns {
+			allInstrs(f, func(in ssa.Instruction) {
+				c, isC := in.(*ssa.Call)
+				if !isC || c.Call.IsInvoke() || ir.CalleeOf(c.Common()) != nil {
+					return
+				}
+				if _, fld, okf := fieldOfLoad(c.Call.Value); !okf || fld != "DiscardHook" {
+					return
+				}
+				n++
+				arg := c.Call.Args[0]
+				var leaves []ssa.Value
+				phiLeaves(arg, map[ssa.Value]bool{}, &leaves)
+				for _, l := range leaves {
+					e, isE := l.(*ssa.Extract)
+					if !isE {
+						ok = false
+						continue
+					}
+					rc, isRC := e.Tuple.(*ssa.Call)
+					if !isRC || !ir.IsCallTo(rc, "net/http.ReadResponse") || !ir.IsNilConst(rc.Call.Args[1]) {
+						ok = false
+					}
+				}
+			})
+		}
+	}
+	return ok && n > 0, n
+}
+
+func ruleDiscardHookInput(r *core.Reporter) {
+	p := r.P
+	reparsed, n := writerHookArgIsReparsed(p)
+	if n == 0 {
+		r.Undecided("warc/hook-call", "", "cannot find where the warc module calls DiscardHook")
+		return
+	}
+	if !reparsed {
+		r.Held("warc/hook-call", n, "the linked warc module hands the hook a live response: no restriction on the fields a hook may read")
+		return
+	}
+	r.Held("warc/hook-call", n, "the warc writer calls DiscardHook on http.ReadResponse(recorded bytes, nil): Request and TLS are nil there")
+	adh := p.Func(rel(pkgDiscard), "(*Builder).AddDefaultHooks")
+	if adh == nil {
+		r.Undecided("discard/hooks", "", "AddDefaultHooks not found")
+		return
+	}
+	var hooks []*ssa.Function
+	allInstrs(adh, func(in ssa.Instruction) {
+		if c, ok := in.(*ssa.Call); ok {
+			for _, a := range c.Call.Args {
+				if f, isF := ir.Strip(a).(*ssa.Function); isF && core.InModule(f) {
+					hooks = append(hooks, f)
+				}
+			}
+		}
+	})
+	if !r.Floor("default discard hooks", len(hooks), 2) {
+		return
+	}
+	forbidden := map[string]bool{"Request": true, "TLS": true}
+	for _, h := range hooks {
+		r.Analysed(h)
+		bad := ""
+		var pos ssa.Instruction
+		for _, f := range withAnon(h) {
+			allInstrs(f, func(in ssa.Instruction) {
+				if fa, ok := in.(*ssa.FieldAddr); ok {
+					if tn, fld, _ := ir.FieldOf(fa); tn == "net/http.Response" && forbidden[fld] {
+						bad, pos = fld, in
+					}
+				}
+			})
+		}
+		if bad != "" {
+			r.Violated("hook/"+shortName(ir.FullName(h)), p.InstrPos(pos), "the discard hook reads resp.%s, which is nil when the WARC writer evaluates the hook on the re-parsed response: the hook then never discards there and rejected responses are written to the WARC", bad)
+		} else {
+			r.Held("hook/"+shortName(ir.FullName(h)), 1, "depends only on wire-level fields of the response")
+		}
+	}
 }
